@@ -22,5 +22,23 @@ def _nontrivial(c):
     return s["overrides"] >= 1 and s["reads"] >= 1 and s["tasks"] >= 2
 
 
+# an override held around a context whose pause() fails when the task is suspended (NonAsyncContext): the override
+# must still be undone for the siblings that run next and after the computation
+_PAUSE_FAILS_INSIDE_OVERRIDE = {
+    "roots": [
+        [{"op": "yield", "x": "x1", "s": {"tuple": [
+            {"new": {"task": [{"op": "with", "c": {"override": [1, 0, 150]}, "body": [
+                {"op": "with", "c": {"nonasync": 2}, "body": [
+                    {"op": "yield", "x": "a1", "s": {"new": {"item": [0, 1, {"set": 1}]}}}]}]},
+                {"op": "return", "e": 0}]}},
+            {"new": {"task": [{"op": "yield", "x": "b1", "s": {"new": {"item": [0, 2, {"set": 2}]}}},
+                              {"op": "read", "x": "r1", "var": 0}, {"op": "return", "e": {"var": "r1"}}]}}]}},
+         {"op": "return", "e": {"var": "x1"}}],
+        [{"op": "read", "x": "r2", "var": 0}, {"op": "return", "e": {"var": "r2"}}]],
+    "params": {"kinds": {}},
+}
+_EXTRA = [(1, dict(_base, name="pause-fails", p_nonasync=0.3, p_ctx_fault=0.5, p_with=0.45, p_item=0.6, p_read=0.25))]
+
 mach.install(globals(), "C07", ("EvRead", "EvResume", "EvPause", "EvSched"), ("C07:",), PROFILES, n_quick=300,
-             n_thorough=25000, nontrivial=_nontrivial, level="proof")
+             n_thorough=25000, nontrivial=_nontrivial, level="proof", corpus=[_PAUSE_FAILS_INSIDE_OVERRIDE],
+             extra_gen=mach.extra_profiles(_EXTRA, 40, 3000))
